@@ -66,9 +66,10 @@ prop('C08', COMMON +
      'the syntax tree (a slot never read is missing from the output). PREC-ISO: the parser precedence ranking (derived '
      'from the chain of productions that build Binary nodes) and the printer precedence table (read from its '
      'discriminant switch) are compared on all 91 operator pairs. LITERAL-PARITY: every content transformation on the '
-     'parser\'s string-literal path has its inverse on the printer\'s. Does not decide layout or the commutative '
+     'parser\'s string-literal path has its inverse on the printer\'s. PAREN-ASSOC: every parenthesis decision for the '
+     'right operand of a Binary node parenthesises at equal precedence (the parser is left-associative). Does not decide layout or the commutative '
      'right-operand shortcut.',
-     [printer_rules.run_prec_iso, printer_rules.run_literal_parity, TI.make(['T-prt'])])
+     [printer_rules.run_prec_iso, printer_rules.run_literal_parity, printer_rules.run_paren_assoc, TI.make(['T-prt'])])
 
 prop('C09', COMMON +
      'Clause "every comment is kept". COMMENT-LINEAR: linear-resource typestate dataflow over the parser MIR (Vec<Comment> '
